@@ -26,7 +26,13 @@ func (s *skipListIndex) put(key []byte, pos *datafile.DataPos) *datafile.DataPos
 	if oldItem != nil {
 		oldValue = oldItem.Value.(*datafile.DataPos)
 	}
-	s.list.Set(key, pos)
+	if oldItem != nil {
+		// key 已存在, 仅更新 value
+		oldItem.Value = pos
+		return oldValue
+	}
+	// 索引持有 key 的独立拷贝, 调用方可继续复用其切片
+	s.list.Set(append([]byte(nil), key...), pos)
 	return oldValue
 }
 
